@@ -208,6 +208,12 @@ def widen(s, pick, d=7):
         s[k] = dict(list(v.items()) + [(a, b) for a, b in extra.items() if a not in v])
     elif k == "dependencies" and isinstance(v, dict):
         s[k] = dict(list(v.items()) + [("w%d" % i, ["w%d" % (i + 1)]) for i in range(n) if "w%d" % i not in v])
+    elif k in ("anyOf", "oneOf") and isinstance(v, list) and pick % 2:
+        # alternatives that exclude one another by type, except where the drafts differ about what an integer is
+        typed = [{"type": "integer"}, {"type": "string"}, {"type": "null"}, {"type": "boolean"}, {"type": "array"},
+                 {"type": "object"}, {"type": "number", "maximum": -1000}, {"type": "string", "minLength": 99},
+                 {"type": "array", "minItems": 99}, {"type": "number", "minimum": 10 ** 9}]
+        s[k] = [e for e in v if isinstance(e, dict) and e.get("type") in ("string", "null", "boolean")][:1] + typed[:max(n, 8)]
     elif k in ("items", "allOf", "anyOf", "oneOf", "extends") and isinstance(v, list):
         s[k] = list(v) + [WIDE_LEAVES[(i + pick) % len(WIDE_LEAVES)] for i in range(n)]
     elif k in ("type", "disallow") and isinstance(v, list):
